@@ -34,7 +34,7 @@ def check(ctx):
     fi = ctx.repo.func('TractParser.parse')
     mlwa = ctx.fold.get('rgxlib.lots', 'multilot_with_aliquot_regex')
     aunp = ctx.fold.get('rgxlib.aliquots', 'aliquot_unpacker_regex')
-    _inc(ctx, 'RX-LANG', 'multilot_with_aliquot_regex', F.LOT_WITH_ALIQUOT, mlwa, 'lot groups with leading aliquot / acreage')
+    ctx.attempt(_inc, 'RX-LANG', 'multilot_with_aliquot_regex', F.LOT_WITH_ALIQUOT, mlwa, 'lot groups with leading aliquot / acreage')
     # separator rule
     loops = [n for n in fi.node.body if isinstance(n, ast.While)]
     ctx.floor('extraction loops', len(loops), 2)
@@ -110,9 +110,9 @@ def check(ctx):
     il = ctx.repo.func('Tract.ilots')
     ctx.check('for lt in self.lots' in norm(il.node.body[-1]), 'DEFUSE', 'ilots mirrors lots element-wise',
               detail_bad="ilots changed", key="DEFUSE|Tract.ilots")
-    _dups(ctx)
-    _unpack_lots(ctx)
-    _acreage(ctx)
+    ctx.attempt(_dups)
+    ctx.attempt(_unpack_lots)
+    ctx.attempt(_acreage)
 
 
 def _dups(ctx):
